@@ -247,4 +247,278 @@ def shardLits : Cond → List Lit
   | .inList onShard _ ls => if onShard then ls else []
   | .between onShard _ lo hi => if onShard then [lo, hi] else []
 
+/-! ### operator dispatch as tables (tied to the source by `harness/extract/c01.go`) -/
+
+/-- What a `case` of the `switch op` in `getFindTableIndexesFunc` does for the
+    sharding column. -/
+inductive FindAction where
+  /-- `FindTableIndex(v)`, `[]int{index}` -/
+  | single
+  /-- `rule.GetSubTableIndexes()` -/
+  | all
+  /-- range shard: `makeList(first, index+1)`, after `adjustShardIndex` if `adj`; otherwise all -/
+  | upTo (adj : Bool)
+  /-- range shard: `makeList(index, last+1)`; otherwise all -/
+  | from
+  deriving DecidableEq, Repr
+
+/-- the `switch op` of `getFindTableIndexesFunc` -/
+def Cmp.findAction : Cmp → FindAction
+  | .eq => .single
+  | .ne => .all
+  | .lt => .upTo true
+  | .le => .upTo false
+  | .gt => .from
+  | .ge => .from
+
+def FindAction.run (r : Rule) (l : Lit) : FindAction → Option (List Int)
+  | .single => l.place.map fun i => [i]
+  | .all => some r.idxs
+  | .upTo adj =>
+    if r.isRange then l.place.map fun i => makeList r.first ((if adj then adjust l i else i) + 1) else some r.idxs
+  | .from => if r.isRange then l.place.map fun i => makeList i (r.last + 1) else some r.idxs
+
+def Cmp.all : List Cmp := [.eq, .ne, .gt, .ge, .lt, .le]
+
+/-- the `opcode` constant a comparison is in the source -/
+def Cmp.goName : Cmp → String
+  | .eq => "EQ" | .ne => "NE" | .lt => "LT" | .le => "LE" | .gt => "GT" | .ge => "GE"
+
+/-- The statements `getFindTableIndexesFunc` executes for the sharding column
+    when `op` is the given constant (conditions on `op` resolved, error returns
+    dropped), as the translator prints them. -/
+def FindAction.trace : FindAction → List String
+  | .single => ["index, err := rule.FindTableIndex(v)", "return []int{index}, nil"]
+  | .all => ["return rule.GetSubTableIndexes(), nil"]
+  | .upTo true =>
+    ["if rangeShard, ok := rule.GetShard().(router.RangeShard); ok {", "index, err := rule.FindTableIndex(v)",
+     "index = adjustShardIndex(rangeShard, v, index)", "return makeList(rule.GetFirstTableIndex(), index+1), nil", "}",
+     "return rule.GetSubTableIndexes(), nil"]
+  | .upTo false =>
+    ["if rangeShard, ok := rule.GetShard().(router.RangeShard); ok {", "index, err := rule.FindTableIndex(v)",
+     "return makeList(rule.GetFirstTableIndex(), index+1), nil", "}", "return rule.GetSubTableIndexes(), nil"]
+  | .from =>
+    ["if rangeShard, ok := rule.GetShard().(router.RangeShard); ok {", "index, err := rule.FindTableIndex(v)",
+     "return makeList(index, rule.GetLastTableIndex()+1), nil", "}", "return rule.GetSubTableIndexes(), nil"]
+
+/-- which list a branch of `mergeBinaryOperationRouteResult` returns -/
+inductive MergeRet where
+  | nil | left | right | inter | union
+  deriving DecidableEq, Repr
+
+def MergeRet.run (l r : List Int) : MergeRet → List Int
+  | .nil => []
+  | .left => l
+  | .right => r
+  | .inter => interList l r
+  | .union => unionList l r
+
+def MergeRet.ofCode : String → Option MergeRet
+  | "nil" => some .nil
+  | "left" => some .left
+  | "right" => some .right
+  | "inter" => some .inter
+  | "union" => some .union
+  | _ => none
+
+/-- the decision lists the translator writes, with the list codes read -/
+def readDecisions (ds : List ((Bool → Bool → Bool) × Bool × String)) :
+    Option (List ((Bool → Bool → Bool) × Bool × MergeRet)) :=
+  ds.mapM fun d => (MergeRet.ofCode d.2.2).map fun m => (d.1, d.2.1, m)
+
+/-- A `case` of `mergeBinaryOperationRouteResult` as the translator reads it: the
+    `if cond { return has, list }` statements in order, then the statement the
+    control reaches when no condition holds (`return false, nil` at the end of
+    the function). -/
+def runDecisions (ds : List ((Bool → Bool → Bool) × Bool × MergeRet)) (dflt : Bool × MergeRet)
+    (lHas rHas : Bool) : Bool × MergeRet :=
+  match ds.find? (fun d => d.1 lHas rHas) with
+  | some d => d.2
+  | none => dflt
+
+/-! ### JOIN … ON: `handleJoin` / `handleJoinTree` / `rewriteOnCondition` /
+    `precheckJoinClause` of plan_select.go -/
+
+/-- The column an atom of a multi-table statement names, as
+    `NeedCreateColumnNameExprDecoratorInCondition` resolves it. Tables are
+    numbered in FROM order; all of them are the same sharded table or linked
+    tables of it (one `RouteResult`, one shard). -/
+inductive JCol where
+  /-- the sharding column of table `tbl` (qualified, or unqualified and the sharding column of that table only) -/
+  | key (tbl : Nat)
+  /-- another column, qualified with table `tbl`: the rule is found, `GetShardingColumn() != column` -/
+  | col (tbl : Nat)
+  /-- an unqualified column that is no table's sharding column: `need = false`, the atom is not routed -/
+  | free
+  /-- an unqualified column that is the sharding column of two tables: "column … is ambiguous for sharding" -/
+  | ambiguous
+  deriving DecidableEq, Repr
+
+inductive JCond where
+  | cmp (c : JCol) (litLeft : Bool) (op : Cmp) (l : Lit)
+  | inList (c : JCol) (neg : Bool) (ls : List Lit)
+  | between (c : JCol) (neg : Bool) (lo hi : Lit)
+  | and (a b : JCond)
+  | or (a b : JCond)
+  | paren (a : JCond)
+  | other (id : Nat)
+  deriving Repr
+
+/-- What `handleComparisonExpr` sees of a join condition: a linked rule
+    delegates `FindTableIndex`, `GetShard`, first/last index and the sub-table
+    list to its parent rule, so only "sharding column of its table or not"
+    remains of the column. -/
+def JCond.erase : JCond → Cond
+  | .paren a => .paren a.erase
+  | .other id => .other id
+  | .and a b => .and a.erase b.erase
+  | .or a b => .or a.erase b.erase
+  | .cmp (.key _) litLeft op l => .cmp true litLeft op l
+  | .cmp (.col _) litLeft op l => .cmp false litLeft op l
+  | .cmp _ _ _ _ => .other 0
+  | .inList (.key _) neg ls => .inList true neg ls
+  | .inList (.col _) neg ls => .inList false neg ls
+  | .inList _ _ _ => .other 0
+  | .between (.key _) neg lo hi => .between true neg lo hi
+  | .between (.col _) neg lo hi => .between false neg lo hi
+  | .between _ _ _ _ => .other 0
+
+def JCond.hasAmbiguous : JCond → Bool
+  | .paren a => a.hasAmbiguous
+  | .other _ => false
+  | .and a b => a.hasAmbiguous || b.hasAmbiguous
+  | .or a b => a.hasAmbiguous || b.hasAmbiguous
+  | .cmp c _ _ _ => c == .ambiguous
+  | .inList c _ _ => c == .ambiguous
+  | .between c _ _ _ => c == .ambiguous
+
+/-- `handleComparisonExpr` on a condition of a multi-table statement -/
+def routeJ (r : Rule) (c : JCond) : Option (Bool × List Int) :=
+  if c.hasAmbiguous then none else route r c.erase
+
+inductive JoinTp where
+  /-- `JOIN`, `INNER JOIN`, `CROSS JOIN`, `STRAIGHT_JOIN`, the comma (`ast.CrossJoin`) -/
+  | inner
+  | left
+  | right
+  deriving DecidableEq, Repr
+
+/-- the `ast.JoinType` constant -/
+def JoinTp.goName : JoinTp → String
+  | .inner => "CrossJoin"
+  | .left => "LeftJoin"
+  | .right => "RightJoin"
+
+/-- One `ast.Join` node of a left-deep FROM clause: it joins the tree of the
+    tables before it with one more table. -/
+structure JoinStep where
+  tp : JoinTp
+  /-- a `USING` column is written with a schema or table qualifier (`precheckJoinClause`) -/
+  usingQualified : Bool
+  on : Option JCond
+  deriving Repr
+
+/-- `handleJoinTree` on the join nodes listed outermost first, starting from the
+    route result `acc`; `restricts` as in the source: every result row has
+    passed the ON conditions of this tree. `none`: the statement is rejected. -/
+def routeJoins (r : Rule) (acc : List Int) : List JoinStep → Bool → Option (List Int)
+  | [], _ => some acc
+  | j :: rest, restricts =>
+    if j.usingQualified then none else
+    match routeJoins r acc rest (restricts && j.tp != .right) with
+    | none => none
+    | some acc' =>
+      match j.on with
+      | none => some acc'
+      | some c =>
+        match routeJ r c with
+        | none => none
+        | some (has, l) => some (if has && (restricts && j.tp == .inner) then interList acc' l else acc')
+
+/-- `handleTableRefs` then `handleWhere` of a SELECT over joined tables. -/
+def routeJoinStmt (r : Rule) (joins : List JoinStep) (wh : Option JCond) : Option (List Int) :=
+  match routeJoins r r.idxs joins true with
+  | none => none
+  | some acc =>
+    match wh with
+    | none => some acc
+    | some c =>
+      match routeJ r c with
+      | none => none
+      | some (has, l) => some (if has then interList acc l else acc)
+
+/-- Truth value of a condition on a row of the joined tables: `vals t` is the
+    sharding value of the row of table `t`, `none` when that row is the NULL
+    extension of an outer join (a comparison with NULL is NULL). -/
+def evalJ (env : JCond → Option Bool) (vals : Nat → Option Int) : JCond → Option Bool
+  | .paren a => evalJ env vals a
+  | .other id => env (.other id)
+  | .and a b => and3 (evalJ env vals a) (evalJ env vals b)
+  | .or a b => or3 (evalJ env vals a) (evalJ env vals b)
+  | .cmp (.key t) litLeft op l =>
+    match vals t with
+    | none => none
+    | some x =>
+      match l.rank with
+      | none => env (.cmp (.key t) litLeft op l)
+      | some v => some (if litLeft then op.holds v x else op.holds x v)
+  | .cmp c litLeft op l => env (.cmp c litLeft op l)
+  | .inList (.key t) neg ls =>
+    match vals t with
+    | none => none
+    | some x =>
+      match allRanks ls with
+      | none => env (.inList (.key t) neg ls)
+      | some vs => some (vs.contains x != neg)
+  | .inList c neg ls => env (.inList c neg ls)
+  | .between (.key t) neg lo hi =>
+    match vals t with
+    | none => none
+    | some x =>
+      match lo.rank, hi.rank with
+      | some a, some b => some ((decide (a ≤ x) && decide (x ≤ b)) != neg)
+      | _, _ => env (.between (.key t) neg lo hi)
+  | .between c neg lo hi => env (.between c neg lo hi)
+
+/-- the literals compared with a sharding column -/
+def jShardLits : JCond → List Lit
+  | .paren a => jShardLits a
+  | .other _ => []
+  | .and a b => jShardLits a ++ jShardLits b
+  | .or a b => jShardLits a ++ jShardLits b
+  | .cmp (.key _) _ _ l => [l]
+  | .cmp _ _ _ _ => []
+  | .inList (.key _) _ ls => ls
+  | .inList _ _ _ => []
+  | .between (.key _) _ lo hi => [lo, hi]
+  | .between _ _ _ _ => []
+
+def optLits : Option JCond → List Lit
+  | some c => jShardLits c
+  | none => []
+
+def joinsLits (joins : List JoinStep) : List Lit := joins.flatMap fun j => optLits j.on
+
+/-- `j.on` holds on the row (no ON condition: always) -/
+def onTrue (env : JCond → Option Bool) (vals : Nat → Option Int) (j : JoinStep) : Prop :=
+  match j.on with
+  | none => True
+  | some c => evalJ env vals c = some true
+
+/-- **SQL semantics of a left-deep join tree** (join nodes outermost first; the
+    node at depth `rest.length` joins tables `0 … rest.length` with table
+    `rest.length + 1`): is the combined row `vals` (with its NULL extensions) a
+    row of the joined table?  An inner join keeps the pairs on which ON is
+    TRUE; a LEFT JOIN keeps every row of its left tree, extended by a matching
+    right row or by NULLs; a RIGHT JOIN keeps every right row, extended by a
+    matching row of the left tree or by NULLs for all its tables. -/
+def inJoin (env : JCond → Option Bool) (vals : Nat → Option Int) : List JoinStep → Prop
+  | [] => (vals 0).isSome
+  | j :: rest =>
+    match j.tp with
+    | .inner => inJoin env vals rest ∧ (vals (rest.length + 1)).isSome ∧ onTrue env vals j
+    | .left => inJoin env vals rest ∧ ((vals (rest.length + 1)).isSome → onTrue env vals j)
+    | .right => (vals (rest.length + 1)).isSome ∧
+        ((inJoin env vals rest ∧ onTrue env vals j) ∨ ∀ t, t ≤ rest.length → vals t = none)
+
 end GaeaVerif.Route
